@@ -2109,7 +2109,8 @@ class SourceCatalog:
         if self._error is None:
             err = self._null_values
         else:
-            err = np.sqrt(np.array([np.sum(arr**2)
+            # float prevents overflow for integer error arrays
+            err = np.sqrt(np.array([np.sum(arr.astype(float)**2)
                                     for arr in self._error_values]))
 
         if self._data_unit is not None:
@@ -3353,7 +3354,8 @@ class SourceCatalog:
                 if error is None:
                     fluxerr_ = np.nan
                 else:
-                    values = (aperture_weights * error**2)[pixel_mask]
+                    values = (aperture_weights
+                              * error.astype(float)**2)[pixel_mask]
                     if values.shape == (0,):
                         fluxerr_ = np.nan
                     else:
